@@ -8,6 +8,8 @@ package main
 //   vm/frame.go CaptureLocals           the statements (heap copy shared by the frame and its cells)
 //   vm/frame.go ActivateCode            the statements (a frame slot is reset when an activation STARTS in it)
 //   vm/vm.go eval                       the LoadFast / StoreFast arms (through the active frame's current locals)
+//   vm/vm.go eval, callObject           the Call arm (every callee goes to callObject) and callObject's
+//                                       *object.Function case (callFunction: a new frame per call)
 //   compiler/symbol_table.go claimIndex, NewBlock; compiler.go compileBlock   block tables claim their
 //                                       indexes from the function table and never hand them back
 
@@ -111,14 +113,14 @@ func c02_genC02(repo string) string {
 			return true
 		}
 		name := c02Print(fset, cc.List[0])
-		if name == "op.MakeCell" || name == "op.LoadFree" || name == "op.StoreFree" || name == "op.LoadFast" || name == "op.StoreFast" {
+		if name == "op.MakeCell" || name == "op.LoadFree" || name == "op.StoreFree" || name == "op.LoadFast" || name == "op.StoreFast" || name == "op.Call" {
 			for _, st := range cc.Body {
 				arms[name] = append(arms[name], c02Print(fset, st))
 			}
 		}
 		return true
 	})
-	for _, k := range []string{"op.MakeCell", "op.LoadFree", "op.StoreFree", "op.LoadFast", "op.StoreFast"} {
+	for _, k := range []string{"op.MakeCell", "op.LoadFree", "op.StoreFree", "op.LoadFast", "op.StoreFast", "op.Call"} {
 		if len(arms[k]) == 0 {
 			panic("eval: arm " + k + " not found")
 		}
@@ -128,6 +130,25 @@ func c02_genC02(repo string) string {
 	sb.WriteString(c02LeanList("armStoreFree", "vm.eval, case op.StoreFree", arms["op.StoreFree"]))
 	sb.WriteString(c02LeanList("armLoadFast", "vm.eval, case op.LoadFast", arms["op.LoadFast"]))
 	sb.WriteString(c02LeanList("armStoreFast", "vm.eval, case op.StoreFast", arms["op.StoreFast"]))
+	sb.WriteString(c02LeanList("armCall", "vm.eval, case op.Call: every callee is handed to callObject", arms["op.Call"]))
+
+	// callObject: what is done with a *object.Function callee
+	fset, fd = c02Func(repo, "vm/vm.go", "callObject")
+	var co []string
+	ast.Inspect(fd, func(n ast.Node) bool {
+		cc, ok := n.(*ast.CaseClause)
+		if !ok || len(cc.List) != 1 || c02Print(fset, cc.List[0]) != "*object.Function" {
+			return true
+		}
+		for _, st := range cc.Body {
+			co = append(co, c02Print(fset, st))
+		}
+		return false
+	})
+	if len(co) == 0 {
+		panic("callObject: the *object.Function case not found")
+	}
+	sb.WriteString(c02LeanList("callObjectFunction", "vm.callObject, case *object.Function", co))
 
 	// callFunction: the `if code.IsNamed() { … }` block and the frame activation
 	fset, fd = c02Func(repo, "vm/vm.go", "callFunction")
